@@ -168,6 +168,10 @@ def rule_staging(fx, rep):
                     ok = fld == (BASE if nm == 'base' else SCALAR)
                     why = 'fills field %r' % fld
                 if ok:
+                    fb_ = next(bi for bi, tt in b.calls() if tt is fill[0])
+                    ok = all(b.dominates(fb_, rb) for rb in b.return_blocks())
+                    why = 'the buffer is not refilled on every path (the result would depend on what an earlier call left in the context)'
+                if ok:
                     # the returned context borrows the same two buffers
                     fb = field_of_param(t[2][BASE])
                     fs = field_of_param(t[2][SCALAR])
@@ -195,6 +199,11 @@ def rule_staging(fx, rep):
                 r0 = strip(o.local(0))
                 ok = r0[0] == 'call' and (r0[1].get('res') or '') == 'wnaf::wnaf_exp'
                 why = 'result is not wnaf_exp(..)'
+            if ok:
+                fb_ = next(bi for bi, tt in b.calls() if tt is fill[0])
+                eb_ = next(bi for bi, tt in b.calls() if tt is ex[0])
+                ok = b.dominates(fb_, eb_) and all(b.dominates(eb_, rb) for rb in b.return_blocks())
+                why = 'the buffer is not refilled on every path before wnaf_exp (history dependence)'
             rep.check(ok, 'WIRE', 'Wnaf::%s(stage 2)' % nm, 'fills the other buffer with the stored window, then wnaf_exp(table, digits)', why, where, construct=p)
     rep.floor('WIRE', 'wnaf-context-methods', n, 6)
 
